@@ -137,7 +137,8 @@ Section Text.
 End Text.
 
 (* ================= 3. DataStore ================= *)
-Inductive scall := SSet (sys k v : nat) | SGetV (sys k : nat) | SDel (sys k : nat) | SGetData (sys : nat) | SFind (k v : nat).
+Inductive scall := SSet (sys k v : nat) | SGetV (sys k : nat) | SDel (sys k : nat) | SGetData (sys : nat) | SFind (k v : nat)
+                 | SDelData (sys : nat).          (* delete_data: all keys of a system in one statement *)
 Definition store := list ((nat * nat) * nat).
 Fixpoint slookup (s k : nat) (l : store) : option nat :=
   match l with
@@ -165,6 +166,7 @@ Definition store_exec (c : scall) (l : store) : store * R :=
   | SGetV s k => (l, match slookup s k l with Some v => [1; v] | None => [4] end)
   | SDel s k => (sremove s k l, [5])
   | SGetData s => (l, 6 :: flat (fold_right insert_pair [] (map (fun e => (snd (fst e), snd e)) (filter (fun e => Nat.eqb (fst (fst e)) s) l))))
+  | SDelData s => (filter (fun e => negb (Nat.eqb (fst (fst e)) s)) l, [5])
   | SFind k v => (l, 7 :: fold_right insert_sorted [] (map (fun e => fst (fst e)) (filter (fun e => Nat.eqb (snd (fst e)) k && Nat.eqb (snd e) v) l)))
   end.
 Definition store_prog (c : scall) : list (mstep store unit (scall * R)) :=
